@@ -1,15 +1,15 @@
 #!/bin/bash
 # Re-run every kept seeded change against the check of the property it breaks: apply to /repo's working tree, ./check quick, revert.
 # Prints one line per change; exit 0 iff every change is caught (check exit 1) and the clean tree passes afterwards.
-cd /verif; miss=0
+V="$(cd "$(dirname "$0")/.." && pwd)"; REPO="${VERIF_REPO:-/repo}"; export VERIF_REPO="$REPO"; cd $V; miss=0; T=$(mktemp -d /tmp/urisim_mut.XXXXXX)
 for d in seeded/*/; do
   id=$(basename $d); p=${id%%-*}
   [ -f $d/patch.diff ] || continue
-  git -C /repo apply /verif/${d}patch.diff || { echo "$id: patch does not apply"; miss=1; continue; }
-  out=$(./check $p quick --evidence /tmp/urisim_mut_ev --replays /tmp/urisim_mut_rp 2>&1); rc=$?
-  git -C /repo checkout -- .
+  git -C $REPO apply $V/${d}patch.diff || { echo "$id: patch does not apply"; miss=1; continue; }
+  out=$(./check $p quick --evidence $T/ev --replays $T/rp 2>&1); rc=$?
+  git -C $REPO checkout -- .
   cls=$(echo "$out" | grep -m1 "  class:" | sed 's/ *(run_index.*//')
   echo "$id: check $p exit=$rc $cls"
   [ $rc = 1 ] || miss=1
 done
-exit $miss
+rm -rf $T; exit $miss
